@@ -608,6 +608,9 @@ class Workspace(AbstractContextManager):
         """
         for child in children:
             if isinstance(child, PropertyGroup):
+                if child.parent is not parent:
+                    # a group of another object is not a child of this parent
+                    continue
                 self._io_call(
                     H5Writer.add_or_update_property_group, child, remove=True, mode="r+"
                 )
